@@ -1,4 +1,4 @@
-"""Matcher pipeline (L4Wire / L4WireGrid / L4WireTrace): C14 (V1), C06 (M1-M4), C04 (A1-A2)."""
+"""Matcher pipeline (L4Wire / L4WireGrid / L4WireTrace): C14 (V1), C06 (M1-M5; M5 also under C14), C04 (A1-A2)."""
 import concurrent.futures
 import json
 import os
@@ -8,7 +8,7 @@ import subprocess
 from common import *
 
 PROTOS = ["ssh", "xmpp", "postgres", "socks4", "socks5", "proxy_protocol", "regexp", "clock", "ip", "wireguard", "dns", "rdp", "http", "tls", "winbox", "openvpn", "quic"]
-CLAUSES = {"C14": ("V1",), "C06": ("M1", "M2", "M3", "M4"), "C04": ("A1", "A2")}
+CLAUSES = {"C14": ("V1", "M5"), "C06": ("M1", "M2", "M3", "M4", "M5"), "C04": ("A1", "A2")}
 
 
 def limit_as():
